@@ -303,3 +303,35 @@ def all_witnesses():
     diag = {k: v for k, v in out.items() if k not in KNOWN_UNDIAGNOSED and k not in NOT_NEAR_MISS}
     und = {k: v for k, v in out.items() if k in KNOWN_UNDIAGNOSED}
     return diag, und
+
+
+def mixed_main_packages():
+    """mixed main packages compiled with the DEFAULT config (NoAutoGenMain = false): main / init / other symbols
+    live in the Go files or in the XGo files; expected: cl reports success and the written Go type-checks TOGETHER
+    with the package's .go files (a second, auto-generated main would be "main redeclared")"""
+    gomain = "package main\n\nimport \"fmt\"\n\nfunc main() {\n\tfmt.Println(Helper(2), answer)\n}\n"
+    goinit = "package main\n\nimport \"fmt\"\n\nfunc init() {\n\tfmt.Println(\"go init\")\n}\n"
+    gohelp = "package main\n\nfunc GoDouble(x int) int {\n\treturn x * 2\n}\n\ntype GoT struct {\n\tN int\n}\n\nvar GoV = 3\n\nconst GoC = 4\n"
+    xhelp = "const answer = 42\n\nfunc Helper(x int) int {\n\treturn x + 1\n}\n"
+    out = {
+        "main-in-go": [("m.go", gomain), ("h.xgo", xhelp)],
+        "main-in-go-two-xgo": [("m.go", gomain), ("a.xgo", "const answer = 42\n"), ("b.xgo", "func Helper(x int) int {\n\treturn x + 1\n}\n")],
+        "main-in-go-gop-ext": [("m.go", gomain), ("h.gop", xhelp)],
+        "main-in-go-sorted-first": [("0main.go", gomain), ("z.xgo", xhelp)],
+        "main-in-go-and-init-in-go": [("m.go", gomain), ("i.go", goinit), ("h.xgo", xhelp)],
+        "main-in-go-init-in-xgo": [("m.go", gomain), ("h.xgo", xhelp + "\nfunc init() {\n\tprintln \"xgo init\"\n}\n")],
+        "main-in-go-class-file": [("m.go", "package main\n\nfunc main() {\n\tr := &Rect{}\n\t_ = r.Area()\n}\n"),
+                                  ("Rect.gox", "var (\n\tw int\n)\n\nfunc Area() int {\n\treturn w\n}\n")],
+        "main-in-xgo-func": [("h.go", gohelp), ("m.xgo", "func main() {\n\tprintln GoDouble(GoV), GoC, GoT{N: 1}\n}\n")],
+        "main-in-xgo-statements": [("h.go", gohelp), ("m.xgo", "println GoDouble(GoV), GoC\n")],
+        "main-in-xgo-init-in-go": [("i.go", goinit), ("m.xgo", "println \"main\"\n")],
+        "no-main-anywhere": [("h.go", gohelp), ("a.xgo", "func Helper(x int) int {\n\treturn GoDouble(x)\n}\n")],
+        "no-main-only-init-in-go": [("i.go", goinit), ("a.xgo", "func Helper(x int) int {\n\treturn x\n}\n")],
+        "non-main-package": [("h.go", gohelp.replace("package main", "package lib")), ("a.xgo", "package lib\n\nfunc Helper(x int) int {\n\treturn GoDouble(x)\n}\n")],
+        "go-uses-xgo-type": [("m.go", "package main\n\nimport \"fmt\"\n\nfunc main() {\n\tfmt.Println(Point{1, 2}.Sum())\n}\n"),
+                             ("p.xgo", "type Point struct {\n\tX, Y int\n}\n\nfunc (p Point) Sum() int {\n\treturn p.X + p.Y\n}\n")],
+        "xgo-method-on-go-type": [("t.go", "package main\n\ntype GoT struct {\n\tN int\n}\n\nfunc main() {\n\tprintln(GoT{2}.Twice())\n}\n"),
+                                  ("m.xgo", "func (t GoT) Twice() int {\n\treturn t.N * 2\n}\n")],
+        "main-var-in-go": [("v.go", "package main\n\nvar counter = 1\n\nfunc main() {\n\tcounter = Next(counter)\n}\n"), ("n.xgo", "func Next(x int) int {\n\treturn x + 1\n}\n")],
+    }
+    return {k: [{"name": n, "src": src} for n, src in v] for k, v in out.items()}
